@@ -681,16 +681,56 @@ class FilelockShim:
         self.BaseFileLock = FileLock
 
 
-PATCHED_NAMES = ("open", "os", "io", "tempfile", "filelock", "secrets")
+PATCHED_NAMES = ("open", "os", "io", "tempfile", "filelock", "secrets", "time")
+
+
+class TimeShim:
+    """Stand-in for the module `time` inside aiocoap.oscore (should the module ever read a clock): the simulated wall
+    clock.  It stands still unless the scenario moves it (`wall` is set by the harness, e.g. at every restart of the
+    process); the monotonic clock only moves forward."""
+
+    def __init__(self, wall=1_700_000_000.0):
+        self.wall = wall
+        self.mono = 1000.0
+
+    def time(self):
+        return self.wall
+
+    def time_ns(self):
+        return int(self.wall * 1e9)
+
+    def monotonic(self):
+        return self.mono
+
+    def monotonic_ns(self):
+        return int(self.mono * 1e9)
+
+    perf_counter = monotonic
+
+    def advance(self, d):
+        self.wall += d
+        if d > 0:
+            self.mono += d
+
+    def sleep(self, d):
+        self.advance(max(0.0, d))
+
+    def __getattr__(self, name):
+        import time as _t
+        v = getattr(_t, name)
+        if callable(v) and name not in ("strftime", "gmtime", "localtime", "mktime", "struct_time", "asctime", "ctime"):
+            raise SeamMissing("aiocoap.oscore uses time.%s, which the simulation does not provide" % name)
+        return v
 
 
 class Seams:
     """Install / remove the six module-level names in aiocoap.oscore."""
 
-    def __init__(self, osc, fs, secrets):
+    def __init__(self, osc, fs, secrets, clock=None):
         self.osc = osc
+        self.clock = clock if clock is not None else TimeShim()
         self.values = {"open": OpenShim(fs), "os": OsShim(fs), "io": IoShim(fs), "tempfile": TempfileShim(fs),
-                       "filelock": FilelockShim(fs), "secrets": secrets}
+                       "filelock": FilelockShim(fs), "secrets": secrets, "time": self.clock}
         self.saved = None
 
     def __enter__(self):
